@@ -284,6 +284,22 @@ def shrink(case):
         yield dict(case, hist=h[:i] + h[i + 1 :])
 
 
+def families(quick):
+    """Queries that can interact through a shared cache, the observations that read it, other events."""
+    obs3 = ["optimize", "compute", "divisions"]
+    fam = {
+        "sort": (["si_u", "si_u_up2", "si_u_np2", "sort_u", "sort_u_desc", "si_u_alt", "sort_a"], ["optimize", "compute"] if quick else obs3,
+                 [["fail", "si_u"], ["fail", "sort_u"], ["keep", "si_u"], ["drop", "si_u"], ["flood"]]),
+        "size": (["rp_200", "rp_400", "gb", "shared_sub"], ["optimize", "compute"] if quick else obs3, [["fail", "rp_200"], ["fail", "gb"], ["flood"]]),
+        "frompandas": (["fp_2", "fp_3", "fp_3_sum"], ["compute", "divisions", "len"] if quick else obs3 + ["len"], [["keep", "fp_2"], ["drop", "fp_2"], ["flood"]]),
+        "parquet": ((["pq_all", "pq_filter", "pqa_all", "pq_div", "pqa_div", "pqa_div_loc"] if quick else
+                     ["pq_all", "pq_filter", "pq_proj", "pqa_all", "pqa_filter", "pq_div", "pqa_div", "pq_div_loc", "pqa_div_loc"]),
+                    ["compute", "divisions"] if quick else ["compute", "divisions", "len"],
+                    [["rewrite", "toggle"], ["rewrite", "toggle", "to_parquet"], ["keep", "pq_all"], ["keep", "pqa_div"], ["drop", "pq_all"], ["drop", "pqa_div"], ["flood"]]),
+    }
+    return fam
+
+
 def run(ctx):
     quick = ctx.tier == "quick"
     from mc.runner import pmap
@@ -291,79 +307,70 @@ def run(ctx):
     _tmpl_root = tempfile.mkdtemp(prefix="c15t_")
     prepare_templates(_tmpl_root)
     obs_kinds = ["optimize", "compute", "len", "divisions"]
-    qnames = list(QUERIES)
-    events = []
-    for q in qnames:
-        for k in obs_kinds:
-            if k == "len" and q in ("sort_a",):
-                continue
-            events.append([k, q])
-    events += [["fail", q] for q in ("si_u", "sort_u", "rp_200", "gb")]
-    events += [["keep", q] for q in ("si_u", "fp_2", "pq_all", "pqa_div")]
-    events += [["drop", q] for q in ("si_u", "fp_2", "pq_all", "pqa_div")]
-    events += [["rewrite", "toggle"], ["rewrite", "toggle", "to_parquet"], ["flood"]]
     configs = [{}] if quick else [{}, {"capacity": 2}]
-    ctx.rule = (f"BFS over session histories: {len(events)} events (optimize / compute / len / divisions of {len(qnames)} queries aliasing on every cache-key component, "
-                "injected source failures, keep/drop+gc of handles, dataset rewrite by pyarrow and by to_parquet(overwrite), flood of 11 filler plans > every capacity); "
-                "each history is replayed in a process forked from a pristine interpreter; histories reaching an already seen planner state (census by reflection of all "
-                "module-level containers + live expression names + dataset version) are not extended; every observation must equal the same query observed alone in a "
-                "fresh process for the same dataset version; non-trivial = history ends with at least one cache entry")
-    total = 0
+    FAMILIES = families(quick)
+    nev = sum(len(q) * len(o) + len(x) for q, o, x in FAMILIES.values())
+    ctx.rule = (f"exhaustive enumeration of session histories per cache family ({len(FAMILIES)} families, {nev} events: optimize / compute / len / divisions of "
+                f"{len(QUERIES)} queries that alias on every cache-key component, injected source failures, keep/drop+gc of handles, dataset rewrite (same file names and "
+                "sizes, new modification time) by an external writer and by to_parquet(overwrite), flood of 11 filler plans > every capacity): ALL histories of length <= 2 and "
+                "all histories [observation, any event, observation] (thorough: length 4 and cache capacity 2); each history runs in a worker whose planner state was reset "
+                "and verified equal to the pristine census (else in a freshly forked process); every observation must equal the same query observed alone in a fresh "
+                "process for the same dataset version; non-trivial = history ends with at least one cache entry")
+    states = set()
     for config in configs:
         # reference table: each observation alone, for both dataset versions
         singles = []
-        for ev in events:
-            if ev[0] in obs_kinds:
-                singles.append({"hist": [ev], "config": config})
-                singles.append({"hist": [["rewrite", "toggle"], ev], "config": config})
+        for fam, (qs, obs, extra) in FAMILIES.items():
+            for q in qs:
+                for k in obs_kinds:
+                    singles.append({"hist": [[k, q]], "config": config})
+                    if fam == "parquet":
+                        singles.append({"hist": [["rewrite", "toggle"], [k, q]], "config": config})
         ref = {}
         for it, r in pmap(run_history, [dict(x, fresh=True) for x in singles], chunk=1):
             for kind, arg, ver, o in r["info"]["obs"]:
                 ref[f"{kind}|{arg}|{ver}"] = o
         REF[repr(sorted(config.items()))] = ref
-        ctx.cov.setdefault("reference_observations", 0)
-        ctx.cov["reference_observations"] += len(ref)
-        raising = sorted(k for k, o in ref.items() if o[0] == "raises")
-        ctx.cov["reference_raises"] = raising[:20]
-        maxh = (3 if quick else 4) if not config else 4
-        seen = set()
-        frontier = [[]]
-        for depth in range(1, maxh + 1):
-            menu = events
-            if depth >= 3:
-                # last step: observations only (they are what the oracle reads)
-                menu = [e for e in events if e[0] in obs_kinds]
-            cands = [{"hist": h + [e], "config": config} for h in frontier for e in menu]
-            cap = 6000 if quick else 40000
-            if len(cands) > cap:
-                ctx.cap_hit(f"depth {depth}: {len(cands)} histories, first {cap} explored")
-                cands = cands[:cap]
-            if ctx.out_of_time():
-                ctx.cap_hit(f"time budget before depth {depth}")
-                break
-            res = ctx.map(run_history, cands, chunk=8, fresh=False)
-            redo = [dict(it, fresh=True) for it, r in res if r["status"] == "needs_fresh"]
-            if redo:
-                ctx.cov["histories_replayed_in_fresh_fork"] = ctx.cov.get("histories_replayed_in_fresh_fork", 0) + len(redo)
-                res = [(it, r) for it, r in res if r["status"] != "needs_fresh"] + ctx.map(run_history, redo, chunk=1, fresh=True)
-            ctx.transitions += len(cands)
-            frontier = []
-            for it, r in res:
-                total += 1
-                st = r.get("info", {}).get("state")
-                if r.get("info", {}).get("cache_entries"):
-                    ctx.nontrivial += 1
-                # strip the bulky reference before failures are minimised
-                if st and st not in seen:
-                    seen.add(st)
-                    frontier.append(it["hist"])
-            ctx.states = max(ctx.states, 0) + len(frontier)
-            ctx.cov.setdefault("per_depth", []).append({"config": config, "depth": depth, "histories": len(cands), "new_states": len(frontier)})
-    # failures carry the reference table: replace by lean cases
+        ctx.cov["reference_observations"] = ctx.cov.get("reference_observations", 0) + len(ref)
+        ctx.cov["reference_raises"] = sorted(k for k, o in ref.items() if o[0] == "raises")[:20]
+        cands = []
+        for fam, (qs, obs, extra) in FAMILIES.items():
+            observations = [[k, q] for q in qs for k in obs]
+            events = observations + extra
+            for e1 in events:
+                cands.append({"hist": [e1], "config": config})
+                for e2 in events:
+                    cands.append({"hist": [e1, e2], "config": config})
+            for e1 in observations:
+                for e2 in events:
+                    for e3 in observations:
+                        cands.append({"hist": [e1, e2, e3], "config": config})
+            if not quick:
+                for e1 in observations:
+                    for e2 in extra:
+                        for e3 in observations:
+                            for e4 in observations:
+                                cands.append({"hist": [e1, e2, e3, e4], "config": config})
+        ctx.cov.setdefault("histories_per_config", []).append(len(cands))
+        res = ctx.map(run_history, cands, chunk=16, fresh=False)
+        redo = [dict(it, fresh=True) for it, r in res if r["status"] == "needs_fresh"]
+        if redo:
+            ctx.cov["histories_replayed_in_fresh_fork"] = ctx.cov.get("histories_replayed_in_fresh_fork", 0) + len(redo)
+            res = [(it, r) for it, r in res if r["status"] != "needs_fresh"] + ctx.map(run_history, redo, chunk=1, fresh=True)
+        ctx.transitions += sum(len(c["hist"]) for c in cands)
+        for it, r in res:
+            st = r.get("info", {}).get("state")
+            if st:
+                states.add(st)
+            if r.get("info", {}).get("cache_entries"):
+                ctx.nontrivial += 1
+    ctx.states = len(states)
     ctx.failures = [({"hist": c["hist"], "config": c.get("config", {})}, v) for c, v in ctx.failures]
     ctx.status_counts.pop("needs_fresh", None)
     ctx.sample("optimize,si_u|compute,si_u_up2|divisions,si_u")
-    ctx.assumptions += ["two histories with the same census have the same futures (every planner decision that is not a function of the query reads one of the censused containers)",
+    ctx.sample("divisions,pqa_div|rewrite,toggle|divisions,pqa_div")
+    ctx.assumptions += ["queries of different families cannot interact: they share no cache key component and no expression name",
+                        "a worker whose census equals the pristine census behaves like a fresh process (every planner decision that is not a function of the query reads one of the censused containers)",
                         "p2p/distributed caches are unreachable in this image"]
     try:
         return ctx.finish(evaluate, shrink, key)
